@@ -21,6 +21,8 @@
 (*   "codetrail"  code followed by a TRAILING directive comment            *)
 (*   "stmttrail"  a statement followed by a trailing directive comment     *)
 (*   "sameline"   a directive comment and then a statement on one line     *)
+(*   "stmturl"    a statement whose message contains comment-like text     *)
+(*                ("see http://x"): one more statement line                *)
 (*   "strdir"     code whose string literal contains the text of a block   *)
 (*                comment directive: not a comment at all                  *)
 (*                                                                         *)
@@ -37,7 +39,7 @@ CONSTANTS LineKinds, MaxLines, Modes
 
 IgnoreLines == {"ign", "ignblock", "ignupper", "ignpadded", "igntight"}
 NoKvpLines  == {"nokvp", "nokvpblock", "nokvpupper"}
-StmtLines   == {"stmt", "stmt2", "stmtml", "stmttrail", "sameline"}
+StmtLines   == {"stmt", "stmt2", "stmtml", "stmttrail", "sameline", "stmturl"}
 TrailingLines == {"codetrail", "stmttrail", "sameline"}   \* a directive comment that shares its line with code
 
 RECURSIVE NearestNonBlankAbove(_, _)
@@ -85,7 +87,7 @@ AtMostOneLine ==
 (* separated by a code or comment line: no effect *)
 SeparatedMeansNone ==
   \A i \in 1..Len(lines) : (lines[i] \in StmtLines /\ NearestNonBlankAbove(lines, i) # 0
-                              /\ lines[NearestNonBlankAbove(lines, i)] \in {"code", "attr", "cmt", "cmtextra", "stmt", "stmt2", "stmtml", "strdir"})
+                              /\ lines[NearestNonBlankAbove(lines, i)] \in {"code", "attr", "cmt", "cmtextra", "stmt", "stmt2", "stmtml", "strdir", "stmturl"})
                              => Effect(lines, i) = "none"
 (* a directive placed after the statement never affects it *)
 AfterMeansNone ==
